@@ -146,6 +146,9 @@ func (s *Spec) base() any {
 	case "nil":
 		return nil
 	case "bool":
+		if s.R == "named" {
+			return namedBool(s.B)
+		}
 		return s.B
 	case "int":
 		switch s.R {
